@@ -36,6 +36,10 @@ Act(sym) ==
     [] sym = "END2" -> [op |-> "end_liq", acct |-> "A2", receiver |-> "liquidator"]
     [] sym = "W3" -> [op |-> "withdraw", acct |-> "A3", bank |-> "B2", amount |-> 1, signer |-> "liquidator"]
     [] sym = "R3" -> [op |-> "repay", acct |-> "A3", bank |-> "B1", amount |-> 100, signer |-> "liquidator"]
+    [] sym = "START4" -> [op |-> "start_liq", acct |-> "A4", receiver |-> "liquidator"]
+    [] sym = "END4" -> [op |-> "end_liq", acct |-> "A4", receiver |-> "liquidator"]
+    [] sym = "W4" -> [op |-> "withdraw", acct |-> "A4", bank |-> "B3", amount |-> 1, signer |-> "liquidator"]
+    [] sym = "R4" -> [op |-> "repay", acct |-> "A4", bank |-> "B1", amount |-> 100, signer |-> "liquidator"]
     [] sym = "DEP1" -> [op |-> "deposit", acct |-> "A1", bank |-> "B1", amount |-> 5]
     [] sym = "INITREC" -> [op |-> "init_liq_record", acct |-> "A6"]
     [] sym = "CSTART3" -> [op |-> "start_liq", acct |-> "A3", receiver |-> "liquidator", cpi |-> TRUE]
@@ -52,12 +56,15 @@ Act(sym) ==
     [] sym = "LIQ3" -> [op |-> "liquidate", liquidator |-> "A1", liquidatee |-> "A3", asset_bank |-> "B2", liab_bank |-> "B1", amount |-> 1000]
     [] sym = "DEPBIG3" -> [op |-> "deposit", acct |-> "A3", bank |-> "B2", amount |-> 1000000000]
 
-IsStart(sym) == sym \in {"START3", "START2"}
-IsEnd(sym) == sym \in {"END3", "END2"}
+IsStart(sym) == sym \in {"START3", "START2", "START4"}
+IsEnd(sym) == sym \in {"END3", "END2", "END4"}
+\* the account a receivership symbol acts on (A3 and A4 are unhealthy and have a liquidation record; A2 is healthy)
+SymAcct(sym) == IF sym \in {"START4", "END4", "W4", "R4"} THEN "A4" ELSE IF sym \in {"START2", "END2"} THEN "A2" ELSE "A3"
+RecvAccts == {"A3", "A4"}
 IsCpiSym(sym) == sym \in {"CSTART3", "CEND3", "CSFL2", "CEFL2"}
 IsMrgn(sym) == sym \notin {"CB", "JUP", "UNK"} /\ ~IsCpiSym(sym)
 ProgAllowed(sym) == sym # "UNK" /\ ~IsCpiSym(sym)      \* top-level program in the receivership allow-list
-RecvInside(sym) == IsStart(sym) \/ IsEnd(sym) \/ sym \in {"INITREC", "W3", "R3"}
+RecvInside(sym) == IsStart(sym) \/ IsEnd(sym) \/ sym \in {"INITREC", "W3", "R3", "W4", "R4"}
 
 \* liquidate_start.rs::validate_instructions for the start at position i of list L
 RECURSIVE FirstOk(_, _, _)
@@ -74,30 +81,35 @@ ValidateStart(L, i) ==
   /\ i < Len(L)
 
 \* ---- sequential simulation of one transaction ----------------------------------------------------
-S0 == [ok |-> TRUE, recv3 |-> FALSE, fl2 |-> FALSE, fl3 |-> FALSE, nW |-> 0, nR |-> 0, big2 |-> FALSE, debt2 |-> TRUE,
-       healthy3 |-> FALSE, rec6 |-> FALSE]
+S0 == [ok |-> TRUE, recv |-> {}, fl2 |-> FALSE, fl3 |-> FALSE, nW |-> [a \in RecvAccts |-> 0], nR |-> [a \in RecvAccts |-> 0],
+       big2 |-> FALSE, debt2 |-> TRUE, healthy3 |-> FALSE, rec6 |-> FALSE]
 Fail(s) == [s EXCEPT !.ok = FALSE]
 Step(L, i, s) ==
   LET sym == L[i] IN
   CASE sym \in {"CB", "JUP", "UNK", "DEP1", "EFL1"} -> s
     [] sym = "INITREC" -> IF s.rec6 THEN Fail(s) ELSE [s EXCEPT !.rec6 = TRUE]
-    [] sym = "START3" -> IF s.recv3 \/ s.fl3 \/ s.healthy3 \/ ~ValidateStart(L, i) THEN Fail(s) ELSE [s EXCEPT !.recv3 = TRUE, !.nW = 0, !.nR = 0]
+    [] sym \in {"START3", "START4"} ->
+         LET a == SymAcct(sym) IN
+         IF a \in s.recv \/ (a = "A3" /\ (s.fl3 \/ s.healthy3)) \/ ~ValidateStart(L, i) THEN Fail(s)
+         ELSE [s EXCEPT !.recv = @ \cup {a}, !.nW[a] = 0, !.nR[a] = 0]
     [] sym = "START2" -> Fail(s)                                  \* A2 is healthy (and can only be unhealthy inside its own flash loan)
-    [] sym = "END3" -> IF s.recv3 /\ (s.nW = 0 \/ s.nR >= 1) THEN [s EXCEPT !.recv3 = FALSE] ELSE Fail(s)
+    [] sym \in {"END3", "END4"} ->
+         LET a == SymAcct(sym) IN
+         IF a \in s.recv /\ (s.nW[a] = 0 \/ s.nR[a] >= 1) THEN [s EXCEPT !.recv = @ \ {a}] ELSE Fail(s)
     [] sym = "END2" -> Fail(s)
-    [] sym = "W3" -> IF s.recv3 THEN [s EXCEPT !.nW = @ + 1] ELSE Fail(s)
-    [] sym = "R3" -> IF s.recv3 THEN [s EXCEPT !.nR = @ + 1] ELSE Fail(s)
+    [] sym \in {"W3", "W4"} -> IF SymAcct(sym) \in s.recv THEN [s EXCEPT !.nW[SymAcct(sym)] = @ + 1] ELSE Fail(s)
+    [] sym \in {"R3", "R4"} -> IF SymAcct(sym) \in s.recv THEN [s EXCEPT !.nR[SymAcct(sym)] = @ + 1] ELSE Fail(s)
     [] IsCpiSym(sym) -> Fail(s)
     [] IsSfl2(sym) -> LET idx == SflIdx(sym) + 1 IN
                       IF idx > i /\ idx <= Len(L) /\ (idx <= Len(L) => L[idx] = "EFL2") /\ ~s.fl2 THEN [s EXCEPT !.fl2 = TRUE] ELSE Fail(s)
     [] IsSfl3(sym) -> LET idx == SflIdx(sym) + 1 IN
-                      IF idx > i /\ idx <= Len(L) /\ (idx <= Len(L) => L[idx] = "EFL3") /\ ~s.fl3 /\ ~s.recv3 THEN [s EXCEPT !.fl3 = TRUE] ELSE Fail(s)
+                      IF idx > i /\ idx <= Len(L) /\ (idx <= Len(L) => L[idx] = "EFL3") /\ ~s.fl3 /\ "A3" \notin s.recv THEN [s EXCEPT !.fl3 = TRUE] ELSE Fail(s)
     [] sym = "EFL2" -> IF s.big2 THEN Fail(s) ELSE [s EXCEPT !.fl2 = FALSE]
-    [] sym = "EFL3" -> IF s.healthy3 /\ ~s.recv3 THEN [s EXCEPT !.fl3 = FALSE] ELSE Fail(s)
+    [] sym = "EFL3" -> IF s.healthy3 /\ "A3" \notin s.recv THEN [s EXCEPT !.fl3 = FALSE] ELSE Fail(s)
     [] sym = "BIGB2" -> IF s.fl2 /\ ~s.big2 THEN [s EXCEPT !.big2 = TRUE, !.debt2 = TRUE] ELSE Fail(s)
     [] sym = "REPALL2" -> IF s.debt2 THEN [s EXCEPT !.big2 = FALSE, !.debt2 = FALSE] ELSE Fail(s)
-    [] sym = "LIQ3" -> IF s.fl3 \/ s.recv3 \/ s.healthy3 THEN Fail(s) ELSE s
-    [] sym = "DEPBIG3" -> IF s.recv3 THEN Fail(s) ELSE [s EXCEPT !.healthy3 = TRUE]
+    [] sym = "LIQ3" -> IF s.fl3 \/ "A3" \in s.recv \/ s.healthy3 THEN Fail(s) ELSE s
+    [] sym = "DEPBIG3" -> IF "A3" \in s.recv THEN Fail(s) ELSE [s EXCEPT !.healthy3 = TRUE]
 RECURSIVE Sim(_, _, _)
 Sim(L, i, s) == IF i > Len(L) \/ ~s.ok THEN s ELSE Sim(L, i + 1, Step(L, i, s))
 Commits(L) == Sim(L, 1, S0).ok
@@ -116,8 +128,8 @@ ShapeOk(L) ==
          LET i == CHOOSE x \in DOMAIN L : IsStart(L[x]) IN
          /\ \A k \in DOMAIN L : (IsStart(L[k]) => k = i)
          /\ \A k \in 1..(i - 1) : L[k] \in {"CB", "INITREC"}
-         /\ L[Len(L)] = "END3" /\ L[i] = "START3"
-         /\ \A k \in (i + 1)..(Len(L) - 1) : L[k] \in {"W3", "R3", "CB", "JUP", "INITREC"}
+         /\ L[i] \in {"START3", "START4"} /\ IsEnd(L[Len(L)]) /\ SymAcct(L[Len(L)]) = SymAcct(L[i])
+         /\ \A k \in (i + 1)..(Len(L) - 1) : L[k] \in {"CB", "JUP", "INITREC"} \/ (L[k] \in {"W3", "R3", "W4", "R4"} /\ SymAcct(L[k]) = SymAcct(L[i]))
     /\ \A k \in DOMAIN L : IsSfl2(L[k]) => (SflIdx(L[k]) + 1 > k /\ L[SflIdx(L[k]) + 1] = "EFL2")
 
 Emit(L) ==
@@ -128,6 +140,6 @@ Emit(L) ==
   /\ PrintT("EDGE " \o ToString(sid) \o " " \o ToString(TLCGet(1) - 1) \o " " \o ToJson(TxAction(L)))
 
 Init == phase = "root" /\ sid = 0 /\ TLCSet(1, 1)
-Next == phase = "root" /\ \E L \in Lists : Keep(L) /\ Emit(L)
+Next == phase = "root" /\ \E L \in Lists : (Keep(L) = TRUE) /\ Emit(L)
 Spec == Init /\ [][Next]_vars
 =============================================================================
